@@ -1606,6 +1606,7 @@ func (t *Tokenizer) readPunctuation() (models.Token, error) {
 		// Just a standalone ? symbol (used for single key existence check)
 		return models.Token{Type: models.TokenTypeQuestion, Value: "?"}, nil
 	case '$':
+		dollarPos := t.pos // where the '$' stands: an unterminated dollar-quoted string is reported there
 		// Handle PostgreSQL positional parameters ($1, $2, etc.)
 		t.pos.AdvanceRune(r, size)
 		if t.pos.Index < len(t.input) {
@@ -1680,9 +1681,10 @@ func (t *Tokenizer) readPunctuation() (models.Token, error) {
 					cr, cs := utf8.DecodeRune(t.input[t.pos.Index:])
 					t.pos.AdvanceRune(cr, cs)
 				}
-				// Unterminated dollar-quoted string
+				// Unterminated dollar-quoted string: located at its opening delimiter,
+				// like every other unterminated literal
 				return models.Token{}, errors.UnterminatedStringError(
-					t.getCurrentPosition(),
+					t.toSQLPosition(dollarPos),
 					string(t.input),
 				)
 			}
